@@ -20,7 +20,7 @@ import (
 
 func TestMain(m *testing.M) {
 	document.SetGlobalLevel(document.LogLevelSilent)
-	kit.TestMain(m, 2000, 30000)
+	kit.TestMain(m, 3000, 60000)
 }
 
 // Op kinds: settings (full struct), size, custom, orient, margins, hfdist, gutter, grid, cleargrid, nil, reopen, para (unrelated edit)
